@@ -867,11 +867,7 @@ pub fn cumulative(
                 model.props.int_le_reif(end_j, start_i, b2);
                 
                 // At least one must be true: b1 OR b2
-                let b_result = model.bool();
-                model.bool_or(&[b1, b2, b_result]);
-                
-                // Force the OR result to be true
-                model.props.equals(b_result, Val::int(1));
+                model.bool_clause(&[b1, b2], &[]);
             }
         }
     }
